@@ -724,6 +724,16 @@ def analyse(prog, E):
         if site.table not in OWN_MEMO_FIELDS:
             fields -= {"self.dmax", "self.seqDeltaMax"}
         quantity_verdict = None
+        if site.scope != "object":
+            # a field that can be set after construction (a palette, a site list) is not a function of the residue string: a table shared by
+            # all objects whose key does not carry it returns one object's value to another
+            settable = sorted(fld for fld in fields if (writers.get((site.cls, fld[5:]), set()) - {"__init__"}) and fld not in key_names
+                              and fld[5:] not in OWN_MEMO_FIELDS)
+            for fld in settable:
+                missing.append(fld)
+                why.append("table is shared by all objects; the cached value reads %s, which %s can change per object, but the key does not carry it"
+                           % (fld, sorted(writers.get((site.cls, fld[5:]), set()) - {"__init__"})))
+            fields -= set(settable)
         if site.scope != "object" and fields and finfo is not None:
             kq, k_unknown = key_quantities(prog, finfo, _inline_key(site, finfo))
             if kq or k_unknown:
